@@ -151,10 +151,29 @@ fn step1<T: Elt>(m: &mut Mesh1D<T, T>, op: &str, a: &mut Args, out: &mut Out) {
             mf.read(path);
             let _ = std::fs::remove_file(path);
             dump1(m, out); }
+        // output, then read() into a mesh that already HOLDS data (nodes2, data2 row-major; as many variables as the writer):
+        // the file as written, the reader through the index path, the guarded path + coord, the quadrature of every variable on the
+        // mesh that was read, and the writer again (the reader must not touch it)
+        "fileinto" => { let prec = a.usize(); let path = a.word(); let nodes2 = a.v::<f64>(); let data2 = a.v::<f64>();
+            let mf = as_f64_1(m);
+            let nv = mf.nvars(); let n2 = nodes2.size();
+            if data2.size() != n2 * nv { panic!("harness: fileinto data length"); }
+            stale(path);
+            mf.output(path, prec);
+            emit_file(path, out);
+            let mut m2 = Mesh1D::<f64, f64>::new(nodes2, nv);
+            for k in 0..n2 { m2.set_nodes_vars(k, Vector::create((0..nv).map(|v| data2[k * nv + v]).collect())); }
+            m2.read(path);
+            let _ = std::fs::remove_file(path);
+            dump1(&m2, out);
+            out.usize(m2.nnodes());
+            for k in 0..m2.nnodes() { out.v(&m2.get_nodes_vars(k)); out.f(m2.coord(k)); }
+            for v in 0..nv { out.f(m2.trapezium(v)); }
+            dump1(m, out); }
         _ => panic!("harness: unknown mesh1 op {}", op),
     }
 }
-fn ends1(op: &str) -> bool { matches!(op, "idxelem" | "file" | "reread") }
+fn ends1(op: &str) -> bool { matches!(op, "idxelem" | "file" | "reread" | "fileinto") }
 
 fn step2<T: Elt>(m: &mut Mesh2D<T>, op: &str, a: &mut Args, out: &mut Out) {
     match op {
